@@ -136,6 +136,8 @@ func c05msg(s *Sink, r *Rand, name string, t reflect.Type, zone string, rounds i
 	}
 }
 
+var lastDecoded = map[string]reflect.Value{}
+
 func c05unmarshal(s *Sink, name string, t reflect.Type, fs []LField, buf []byte, zone, class string) {
 	p := reflect.New(t)
 	in := append([]byte{}, buf...)
@@ -149,6 +151,18 @@ func c05unmarshal(s *Sink, name string, t reflect.Type, fs []LField, buf []byte,
 		if after := valsOf(p.Elem(), fs, true); after != vals {
 			s.Fail(map[string]any{"op": "msg-unmarshal-alias", "type": name, "buf_hex": hexs(buf)}, "decoded message changed when the input buffer was overwritten")
 		}
+		// the same bytes decoded into a variable that already holds the previous message of this type (a caller reusing
+		// its reply struct): the result is the message on the wire, nothing of the old value shows through
+		if prev, ok := lastDecoded[name]; ok && prev.Type() == p.Type() {
+			cl2, _ := safeUnmarshal(append([]byte{}, buf...), prev.Interface())
+			if cl2 == "ok" {
+				if again := valsOf(prev.Elem(), fs, true); again != vals {
+					s.Fail(map[string]any{"op": "msg-unmarshal-reused", "type": name, "buf_hex": hexs(buf), "fresh": vals, "reused": again},
+						"decoding into a variable that already holds an earlier message gives a different value than decoding into a new one")
+				}
+			}
+		}
+		lastDecoded[name] = p
 	}
 	s.Add(fmt.Sprintf("CM (CMsgUnmarshal %s %s %s)", coqString(name), coqBytes(buf), coqOutcome(cl, vals)),
 		map[string]any{"op": "msg-unmarshal", "type": name, "tz": zone, "buf_hex": hexs(buf), "outcome": cl, "msg": msg, "values": vals}, class,
